@@ -1082,6 +1082,8 @@ def run(ctx):
     ctx.do(c10.r10_5)
     ctx.do(c10.r10_9)
     ctx.do(c10.r10_8)  # the wait loops of the admission queue make progress
+    from . import c19 as _c19s
+    ctx.do(_c19s.r19_4)  # the size counter is per command: a later, legal command is not dropped without its tagged reply
     ctx.trust("frozen: transport/cancel arms of command() that may stay silent = ConnectionResetError, CancelledError, KeyboardInterrupt")
     ctx.trust("frozen: logging calls (logger.*/self.log.*) are non-raising")
 
